@@ -49,7 +49,9 @@ type dcShape struct {
 	name, kind, param string
 	s                 sdf.SDF3
 	vol               float64
-	lattice           bool // faces on lattice planes: margin of exactly 3 cells, no phase shift
+	lattice           bool    // faces on lattice planes: margin of exactly 3 cells, no phase shift
+	centred           bool    // no phase shift: the shape stays symmetric about the origin
+	distScale         float64 // |Evaluate| * distScale is a LOWER bound of the distance to the surface (0: exact field, 1)
 }
 
 // latticeBox is an axis-aligned box whose faces lie on lattice planes of the n-cell grid (cell = 1/8,
@@ -82,6 +84,9 @@ func dcMeasure(sh dcShape, which string, cells int, shift v3.Vec) dcMeasObs {
 	cellEst := bb0.Size().MaxComponent() / float64(cells-5)
 	bb := sdf.Box3{Min: bb0.Min.SubScalar(2.5 * cellEst), Max: bb0.Max.AddScalar(2.5 * cellEst)}
 	d := shift.MulScalar(cellEst)
+	if sh.centred {
+		d = v3.Vec{}
+	}
 	if sh.lattice {
 		cellEst = bb0.Size().MaxComponent() / float64(cells-6)
 		bb = sdf.Box3{Min: bb0.Min.SubScalar(3 * cellEst), Max: bb0.Max.AddScalar(3 * cellEst)}
@@ -116,7 +121,11 @@ func dcMeasure(sh dcShape, which string, cells int, shift v3.Vec) dcMeasObs {
 				}
 				margin = math.Min(margin, math.Min(q[a], h[a]-q[a]))
 			}
-			maxd = math.Max(maxd, math.Abs(sh.s.Evaluate(t[j])))
+			ds := sh.distScale
+			if ds == 0 {
+				ds = 1
+			}
+			maxd = math.Max(maxd, ds*math.Abs(sh.s.Evaluate(t[j])))
 		}
 		if ids[0] == ids[1] || ids[1] == ids[2] || ids[2] == ids[0] {
 			o.Degen++
@@ -189,6 +198,12 @@ func dcShapes(rnd *rand.Rand) []dcShape {
 		param: fmtf(bs.X, bs.Y, bs.Z, ang[0], ang[1], ang[2])})
 	shapes = append(shapes, dcShape{name: "difference-sphere-sphere", kind: "csg",
 		s: sdf.Difference3D(sps, sdf.Transform3D(s2, sdf.Translate3d(c.Add(v3.Vec{X: 0.8 * R})))), param: fmtf(R)})
+	// a field that OVER-estimates the distance (non-uniform scale of a sphere, centred on the origin): ray casting
+	// towards the surface can step past it, which is the renderers' fall-back path; |f| * 0.4 is a lower bound
+	// of the true distance
+	sq := 0.3 + 0.3*rnd.Float64()
+	shapes = append(shapes, dcShape{name: "squashed-sphere", kind: "csg", s: sdf.Transform3D(sp, sdf.Scale3d(v3.Vec{X: 1, Y: 1, Z: sq})),
+		param: fmtf(R, sq), centred: true, distScale: sq})
 	return shapes
 }
 
